@@ -191,21 +191,29 @@ impl Observation {
     }
 }
 
+/// Stable rendering of a bundle account (the Debug output of code bodies differs between
+/// processes, and the replay discipline compares diff texts).
+pub fn fmt_bundle_account(a: &revm_database::BundleAccount) -> String {
+    let info = |i: &Option<revm_state::AccountInfo>| i.as_ref().map(|i| format!("(balance {}, nonce {}, code_hash {:?})", i.balance, i.nonce, i.code_hash));
+    let st: BTreeMap<_, _> = a.storage.iter().map(|(k, v)| (*k, (v.previous_or_original_value, v.present_value))).collect();
+    format!("{{info: {:?}, original: {:?}, status: {:?}, storage (orig,present): {:?}}}", info(&a.info), info(&a.original_info), a.status, st)
+}
+
 pub fn bundle_diff(got: &BundleState, exp: &BundleState) -> String {
     let g: BTreeMap<_, _> = got.state.iter().collect();
     let e: BTreeMap<_, _> = exp.state.iter().collect();
     for (a, ea) in &e {
         match g.get(a) {
-            None => return format!("bundle: account {} missing; expected {:?}", short(a), ea),
+            None => return format!("bundle: account {} missing; expected {}", short(a), fmt_bundle_account(ea)),
             Some(ga) if ga != ea => {
-                return format!("bundle: account {}: got {:?}, expected {:?}", short(a), ga, ea)
+                return format!("bundle: account {}: got {}, expected {}", short(a), fmt_bundle_account(ga), fmt_bundle_account(ea))
             }
             _ => {}
         }
     }
     for (a, ga) in &g {
         if !e.contains_key(a) {
-            return format!("bundle: unexpected account {}: {:?}", short(a), ga);
+            return format!("bundle: unexpected account {}: {}", short(a), fmt_bundle_account(ga));
         }
     }
     if got.contracts != exp.contracts {
@@ -214,7 +222,29 @@ pub fn bundle_diff(got: &BundleState, exp: &BundleState) -> String {
         return format!("bundle: contracts differ: got {gk:?}, expected {ek:?}");
     }
     if got.reverts != exp.reverts {
-        return format!("bundle: reverts differ: got {:?}, expected {:?}", got.reverts, exp.reverts);
+        let render = |b: &BundleState| -> String {
+            b.reverts
+                .iter()
+                .map(|block| {
+                    block
+                        .iter()
+                        .map(|(a, r)| {
+                            let acct = match &r.account {
+                                revm_database::states::reverts::AccountInfoRevert::RevertTo(i) => {
+                                    format!("RevertTo(balance {}, nonce {}, code_hash {:?})", i.balance, i.nonce, i.code_hash)
+                                }
+                                other => format!("{other:?}"),
+                            };
+                            let st: BTreeMap<_, _> = r.storage.iter().map(|(k, v)| (*k, *v)).collect();
+                            format!("{}: {acct} prev={:?} wipe={} storage={st:?}", short(a), r.previous_status, r.wipe_storage)
+                        })
+                        .collect::<Vec<_>>()
+                        .join("; ")
+                })
+                .collect::<Vec<_>>()
+                .join(" | ")
+        };
+        return format!("bundle: reverts differ: got [{}], expected [{}]", render(got), render(exp));
     }
     if got.state_size != exp.state_size || got.reverts_size != exp.reverts_size {
         return format!(
@@ -353,6 +383,50 @@ pub fn reference(case: &Case, fault: Option<FaultPlan>) -> Expected {
     drop(evm);
     let keys_read = db.log.as_ref().map(|l| l.lock().unwrap().clone()).unwrap_or_default();
     Expected { obs: Observation { error, outcomes, bundle, panic: None }, commits, keys_read }
+}
+
+/// Several consecutive blocks on one revm `State` (merge after each block); returns all outcomes,
+/// the accumulated bundle and the values readable afterwards over `(addrs, slots)` through the
+/// `Database` interface.
+pub fn reference_blocks(
+    case: &Case,
+    blocks: &[Arc<Vec<TxEnv>>],
+    addrs: &[Address],
+    slots: &[U256],
+) -> (Vec<TxExecutionOutcome>, BundleState, String) {
+    let db = ExecDb::new(case.db.clone(), None, false, false);
+    let spec = case.spec;
+    let state = StateBuilder::new().with_bundle_update().with_database_ref(&db).build();
+    let mut evm = Context::mainnet()
+        .with_db(state)
+        .with_cfg(case.cfg())
+        .with_block(case.env.clone())
+        .build_mainnet_with_inspector(NoOpInspector {})
+        .with_precompiles(PrecompilesMap::from_static(Precompiles::new(PrecompileSpecId::from_spec_id(spec))));
+    if let Some(pcs) = &case.precompiles {
+        for (address, precompile) in pcs.iter() {
+            let precompile = precompile.to_alloy();
+            evm.precompiles.apply_precompile(address, move |_| Some(precompile));
+        }
+    }
+    let mut outcomes = Vec::new();
+    for block in blocks {
+        for tx in block.iter() {
+            match evm.transact(tx.clone()) {
+                Ok(ras) => {
+                    evm.ctx.journaled_state.database.commit(ras.state);
+                    outcomes.push(TxExecutionOutcome::Executed(ras.result));
+                }
+                Err(EVMError::Transaction(t)) => outcomes.push(TxExecutionOutcome::Skipped(t)),
+                Err(e) => panic!("reference_blocks: unexpected error {:?}", err_string(&map_err(e))),
+            }
+        }
+        evm.ctx.journaled_state.database.merge_transitions(BundleRetention::Reverts);
+    }
+    let st = &mut evm.ctx.journaled_state.database;
+    let reads = format!("{:?}", read_universe_mut(st, addrs, slots).map_err(|e| format!("{e:?}")));
+    let bundle = normalize_bundle(st.take_bundle());
+    (outcomes, bundle, reads)
 }
 
 // ------------------------------------------------------------------------------------------------
